@@ -65,13 +65,15 @@ def asis : ListQuirks :=
 def pairV (p : Val × Val) : Val := .list [p.1, p.2] .space false
 
 /- `impl PartialEq for css::Value` restricted to the modelled constructors.
-(No arm for `ArgList`: an argument list is equal to nothing, not even to itself.) -/
+(No arm for `ArgList`: an argument list is equal to nothing, not even to itself.)
+Maps: `impl PartialEq for OrderMap` (rsass/src/ordermap.rs, since fix 001310e): same
+length and every entry of the left map has an equal entry in the right map, in any order. -/
 mutual
 def veq : Val → Val → Bool
   | .atom _ c1, .atom _ c2 => c1 == c2
   | .null, .null => true
   | .list a s1 b1, .list b s2 b2 => veqList a b && decide (s1 = s2) && b1 == b2
-  | .map a, .map b => veqPairs a b
+  | .map a, .map b => a.length == b.length && veqAllIn a b
   | .list a _ _, .map b => a.isEmpty && b.isEmpty
   | .map a, .list b _ _ => a.isEmpty && b.isEmpty
   | _, _ => false
@@ -79,10 +81,9 @@ def veqList : List Val → List Val → Bool
   | [], [] => true
   | x :: xs, y :: ys => veq x y && veqList xs ys
   | _, _ => false
-def veqPairs : List (Val × Val) → List (Val × Val) → Bool
-  | [], [] => true
-  | (k1, v1) :: xs, (k2, v2) :: ys => veq k1 k2 && veq v1 v2 && veqPairs xs ys
-  | _, _ => false
+def veqAllIn : List (Val × Val) → List (Val × Val) → Bool
+  | [], _ => true
+  | (k, v) :: xs, b => b.any (fun p => veq k p.1 && veq v p.2) && veqAllIn xs b
 end
 
 /-- `fn get_list(value) -> (Vec<Value>, Option<ListSeparator>, bool)` -/
